@@ -309,6 +309,20 @@ static void run_step(World& w, const vj::Value& st)
       else throw std::runtime_error("transpose not offered by " + S.fmt);
     });
   }
+  else if(op == "transpinto")
+  {
+    // the member writing into an existing container; dst == src is the self transposition a.transpose(a)
+    with_slot(S, [&](auto fs, auto ts, auto& a) {
+      typedef decltype(fs) FS; typedef decltype(ts) TS;
+      if constexpr (FS::id == 0 || FS::id == 3) { auto& b = target<FS, TS>(w, dst, S.fmt, S.ty); b.transpose(a); }
+      else if constexpr (FS::id == 4)
+      {
+        if constexpr (FS::BH == FS::BW) { auto& b = target<FS, TS>(w, dst, S.fmt, S.ty); b.transpose(a); }
+        else { auto& b = target<FBCSR<FS::BW, FS::BH>, TS>(w, dst, S.fmt, S.ty); b.transpose(a); }
+      }
+      else throw std::runtime_error("transpose not offered by " + S.fmt);
+    });
+  }
   else if(op == "tinplace")
   {
     with_slot(S, [&](auto fs, auto, auto& a) {
